@@ -11,7 +11,7 @@ class C02(Spec):
     extra_models = ('treel',)   # pointer-level model (TreeLinksModel.v): must print the same trace
     driver = 'tree'
     lib_srcs = ['bintree.c', 'rbtree.c']
-    header_words = ('keys', 'kind', 'cmpmode', 'vsign', 'swapobj')
+    header_words = ('keys', 'kind', 'cmpmode', 'vsign', 'swapobj', 'nestwalk')
 
     def more_variants(self, cases, tier, seed):
         return T.swap_variants(cases, seed, every=3)
